@@ -691,6 +691,11 @@ func Origins(v ssa.Value, o OriginOpts) []ssa.Value {
 		case *ssa.Slice:
 			walk(x.X, depth, ext)
 		case *ssa.Extract:
+			// `v, ok := x.(T)` / type switch arm: the value is x
+			if ta, ok := x.Tuple.(*ssa.TypeAssert); ok && x.Index == 0 {
+				walk(ta.X, depth, ext)
+				return
+			}
 			if c, ok := x.Tuple.(*ssa.Call); ok && o.ThroughCall != nil {
 				if vs := o.ThroughCall(c, x.Index); vs != nil {
 					for _, a := range vs {
